@@ -30,7 +30,7 @@ TRUSTED = [
 ]
 ASSUMPTIONS = ['F20c: parameter values containing a comma, a double quote or a backslash, or leading/trailing white space in an unquoted value, do not survive the field (DigestAuthScheme.parse splits on every comma and does not unescape) - recorded finding']
 RULE = ('credential tuples over printable ASCII with "/", ":", "@", "=", spaces, empty values, and the hostile classes (comma, quote, backslash, outer white space, 8-bit, "=?") x qop in {absent, auth, auth-int, other} '
-	'x algorithm in {absent, MD5, MD5-sess, SHA-256, unknown} x precomputed A1; the RFC 2617 and RFC 7616 examples; for verification every single-field perturbation of a valid tuple; '
+	'x algorithm in {absent, MD5, MD5-sess, SHA-256, unknown} x precomputed A1; the RFC 2617 and RFC 7616 examples; for verification every single-field perturbation of a valid tuple (the URI also with a query / fragment appended or cut), checked against realm + response and against the whole received field; the field read back through element(), parse() and the list route elements(); '
 	'garbage and mutated fields for the parser; non-trivial = a digest computed and verified; distinct by composed field')
 
 FIELDS = ['username', 'realm', 'password', 'nonce', 'cnonce', 'nc', 'method', 'uri', 'entity_body', 'qop', 'algorithm', 'A1', 'response', 'opaque']
@@ -256,6 +256,11 @@ def perturbations(p):
 		for v in (p[f] + b'x', p[f][:-1] if p[f] else b'y', p[f].swapcase() if p[f].swapcase() != p[f] else p[f] + b':'):
 			if v != p[f]:
 				out.append(dict(p, **{f: v}))
+	if 'uri' in p:
+		# the request the server sees differs from the signed one only behind the path
+		for v in (p['uri'] + b'?x=1', p['uri'] + b'?', p['uri'] + b'#f', p['uri'] + b'/', p['uri'].partition(b'?')[0]):
+			if v != p['uri']:
+				out.append(dict(p, uri=v))
 	return out
 
 
@@ -332,6 +337,7 @@ def oracle(case):
 			h.parse(b'Authorization: ' + w)
 			ps = h.element('Authorization').params
 			ps2 = Authorization.parse(w).params
+			ps3 = h.elements('Authorization')[0].params      # the list route: split at white space outside quotes first
 		except Exception as e:
 			fid = 'F20c' if not all(wire_safe(v) for k, v in p.items() if k in ('username', 'realm', 'nonce', 'uri', 'cnonce', 'nc', 'opaque', 'qop', 'algorithm')) or b'=?' in w else None
 			return {'what': 'compose/parse of the field raised %s: %s' % (exc_name(e), e), 'params': describe(case)[1], 'finding': fid}
@@ -340,7 +346,7 @@ def oracle(case):
 		if p.get('qop'):
 			expect['cnonce'] = p['cnonce']
 			expect['nc'] = p['nc']
-		for got_ps in (ps, ps2):
+		for got_ps in (ps, ps2, ps3):
 			gotd = {(k.decode() if isinstance(k, bytes) else k): v for k, v in dict.items(got_ps)}
 			if gotd != expect:
 				diff = sorted(k for k in set(gotd) | set(expect) if gotd.get(k) != expect.get(k))
@@ -368,6 +374,20 @@ def oracle(case):
 					return {'what': 'check() raised %s' % exc_name(e), 'params': describe(case)[1], 'finding': None}
 	if case[0] == 'perturb':
 		given = bud({'realm': p['realm'], 'response': ref})
+		# ... and as a server has them: every parameter of the received field
+		received = {k: p[k] for k in ('username', 'realm', 'nonce', 'uri', 'algorithm', 'opaque', 'qop') if k in p}
+		received['response'] = ref
+		if p.get('qop'):
+			received['cnonce'] = p['cnonce']
+			received['nc'] = p['nc']
+		for q in perturbations(p):
+			try:
+				ok2 = D.check(bud(q), bud(received))
+			except Exception as e:
+				return {'what': 'check() raised %s' % exc_name(e), 'params': describe(case)[1], 'finding': None}
+			if ok2 != (reference(q) == ref and q['realm'] == p['realm']):
+				changed = [f for f in q if q[f] != p.get(f)]
+				return {'what': 'check() against the whole received field %s credentials that differ in %s (%r)' % ('accepts' if ok2 else 'rejects', changed or 'nothing', {f: q[f] for f in changed}), 'params': describe(case)[1], 'finding': None}
 		for q in perturbations(p):
 			try:
 				ok = D.check(bud(q), given)
